@@ -460,7 +460,7 @@ func RunC11(seed int64, tier, out string) {
 	hx.Seed(seed)
 	g := &cv.Gen{R: rand.New(rand.NewSource(hx.Rng.Int63()))}
 	res := hx.NewResult("C11", seed, tier)
-	histories, maxSteps, perFile := 64, 110, 4
+	histories, maxSteps, perFile := 48, 110, 3
 	if tier != "quick" {
 		histories, maxSteps, perFile = 800, 400, 4
 	}
